@@ -1,5 +1,5 @@
 CONSTANTS
-  Deviations = {"MtxfAlways", "BmeshNotMop"}
+  Deviations = {"MtxfAlways"}
   MhdrFileRelative = FALSE
   NK = 256
   MaxRounds = 4
